@@ -25,7 +25,7 @@ use vrp_core::models::{GoalContextBuilder, Problem, ProblemBuilder};
 use vverif::{PanicInfo, Rng, Run, guard, mix, par_for};
 
 const RULE: &str = "case = one operation history applied in lock-step to the real structure and to a Vec/bitset reference model, \
-compared after every step. Exhaustive part: every op sequence of length L (quick 4, thorough 5; all shorter sequences are \
+compared after every step (in the enumeration every distinct prefix is compared once: a prefix shared with the preceding sequence is replayed without repeating its comparisons). Exhaustive part: every op sequence of length L (quick 4, thorough 5; all shorter sequences are \
 prefixes) over Tour{insert_at(sub-job,index in 1..=n+1), insert_last, remove(job), remove_activity_at(1..=n), deep_copy(continue \
 on copy|original)} x 3-job alphabet (2 singles + one 2-task multi job) x {Tour::new, set_start/set_end, Route, RouteContext} x \
 {closed, open}, and over Registry{use_actor, free_actor, deep_copy, deep_slice} / RegistryContext{get_route, use_route, \
@@ -846,6 +846,9 @@ struct TourRunner<'a> {
     uid: usize,
     log: Vec<TOp>,
     origin: Value,
+    /// the state comparison is skipped while fewer than `quiet_until` ops were applied (exhaustive part only: that
+    /// prefix was compared step by step in the preceding sequence of the enumeration)
+    quiet_until: usize,
 }
 
 impl<'a> TourRunner<'a> {
@@ -857,7 +860,7 @@ impl<'a> TourRunner<'a> {
         })
     }
 
-    fn new(cx: &mut Cx, w: &'a World, al: &'a Alphabet, kind: Kind, closed: bool, origin: Value) -> Option<Self> {
+    fn new(cx: &mut Cx, w: &'a World, al: &'a Alphabet, kind: Kind, closed: bool, origin: Value, quiet_until: usize) -> Option<Self> {
         let fw = &w.fleets[0];
         let ai = if closed { 0 } else { 1 };
         debug_assert_eq!(fw.closed[ai], closed);
@@ -889,6 +892,7 @@ impl<'a> TourRunner<'a> {
             uid: 0,
             log: vec![],
             origin,
+            quiet_until,
         };
         match built {
             Ok(h) => runner.main = h,
@@ -911,6 +915,9 @@ impl<'a> TourRunner<'a> {
     }
 
     fn check_all(&mut self, cx: &mut Cx, opname: &str) -> bool {
+        if self.log.len() < self.quiet_until {
+            return true;
+        }
         cx.stats.step_checks += 1;
         match guard(|| check_holder(&self.main, &self.model, self.al, &self.actor)) {
             Err(p) => {
@@ -1120,15 +1127,25 @@ fn dfs_tour(al: &Alphabet, model: &TourModel, seq: &mut Vec<TOp>, left: usize, l
     true
 }
 
-fn run_tour_sequence(cx: &mut Cx, w: &World, al: &Alphabet, kind: Kind, closed: bool, ops: &[TOp], origin: Value) {
+/// Runs one literal sequence; returns the length of the violating prefix if a violation was reported.
+fn run_tour_sequence(
+    cx: &mut Cx,
+    w: &World,
+    al: &Alphabet,
+    kind: Kind,
+    closed: bool,
+    ops: &[TOp],
+    origin: Value,
+    quiet: usize,
+) -> Option<usize> {
     cx.stats.evals += 1;
-    if let Some(mut runner) = TourRunner::new(cx, w, al, kind, closed, origin) {
-        for op in ops {
-            if !runner.step(cx, op.clone()) {
-                break;
-            }
+    let Some(mut runner) = TourRunner::new(cx, w, al, kind, closed, origin, quiet) else { return Some(0) };
+    for op in ops {
+        if !runner.step(cx, op.clone()) {
+            return Some(runner.log.len());
         }
     }
+    None
 }
 
 fn gen_tour_op(rng: &mut Rng, cx: &mut Cx, model: &TourModel, al: &Alphabet, kind: Kind, bias: f64) -> TOp {
@@ -1193,7 +1210,7 @@ fn random_tour_history(cx: &mut Cx, w: &World, rng: &mut Rng, case_seed: u64, wa
         },
     );
     let origin = json!({"phase": "random", "case_seed": case_seed});
-    let Some(mut runner) = TourRunner::new(cx, w, al, kind, closed, origin) else { return };
+    let Some(mut runner) = TourRunner::new(cx, w, al, kind, closed, origin, 0) else { return };
     let mut max_n = 0;
     for _ in 0..len {
         let op = gen_tour_op(rng, cx, &runner.model, al, kind, bias);
@@ -1438,6 +1455,7 @@ struct RegRunner<'a> {
     asides: Vec<(Registry, RegModel)>,
     log: Vec<ROp>,
     origin: Value,
+    quiet_until: usize,
 }
 
 impl<'a> RegRunner<'a> {
@@ -1448,13 +1466,13 @@ impl<'a> RegRunner<'a> {
             "model_in_use": format!("{um:#b}"), "origin": self.origin})
     }
 
-    fn new(cx: &mut Cx, fw: &'a FleetWorld, rand_seed: u64, origin: Value) -> Option<Self> {
+    fn new(cx: &mut Cx, fw: &'a FleetWorld, rand_seed: u64, origin: Value, quiet_until: usize) -> Option<Self> {
         let rnd = Arc::new(SeqRandom::new(rand_seed));
         let built = guard(|| Registry::new(&fw.problem.fleet, rnd.clone()));
         match built {
             Ok(main) => {
                 let mut r =
-                    Self { fw, rnd, rand_seed, main, model: RegModel::new(fw.n()), asides: vec![], log: vec![], origin };
+                    Self { fw, rnd, rand_seed, main, model: RegModel::new(fw.n()), asides: vec![], log: vec![], origin, quiet_until };
                 cx.obs("registry_ops", "Registry::new");
                 if r.check_all(cx, "new") { Some(r) } else { None }
             }
@@ -1466,6 +1484,9 @@ impl<'a> RegRunner<'a> {
     }
 
     fn check_all(&mut self, cx: &mut Cx, opname: &str) -> bool {
+        if self.log.len() < self.quiet_until {
+            return true;
+        }
         cx.stats.step_checks += 1;
         cx.obs("registry_ops", "all+available+next(x3) compared");
         match guard(|| check_registry(&self.main, &self.model, self.fw, &self.rnd)) {
@@ -1713,6 +1734,7 @@ struct CtxRunner<'a> {
     uid: usize,
     log: Vec<ROp>,
     origin: Value,
+    quiet_until: usize,
 }
 
 impl<'a> CtxRunner<'a> {
@@ -1723,7 +1745,7 @@ impl<'a> CtxRunner<'a> {
             "model_in_use": format!("{um:#b}"), "origin": self.origin})
     }
 
-    fn new(cx: &mut Cx, fw: &'a FleetWorld, al: &'a Alphabet, rand_seed: u64, origin: Value) -> Option<Self> {
+    fn new(cx: &mut Cx, fw: &'a FleetWorld, al: &'a Alphabet, rand_seed: u64, origin: Value, quiet_until: usize) -> Option<Self> {
         let rnd = Arc::new(SeqRandom::new(rand_seed));
         let built = guard(|| RegistryContext::new(&fw.problem.goal, Registry::new(&fw.problem.fleet, rnd.clone())));
         match built {
@@ -1740,6 +1762,7 @@ impl<'a> CtxRunner<'a> {
                     uid: 0,
                     log: vec![],
                     origin,
+                    quiet_until,
                 };
                 cx.obs("registry_ops", "RegistryContext::new");
                 if r.check_all(cx, "new") { Some(r) } else { None }
@@ -1752,6 +1775,9 @@ impl<'a> CtxRunner<'a> {
     }
 
     fn check_all(&mut self, cx: &mut Cx, opname: &str) -> bool {
+        if self.log.len() < self.quiet_until {
+            return true;
+        }
         cx.stats.step_checks += 1;
         cx.obs("registry_ops", "resources()+next_route(x3) compared");
         let main = self.main.as_ref().expect("main side");
@@ -2046,24 +2072,35 @@ fn reg_ops_exhaustive(n: usize, ctx: bool) -> Vec<ROp> {
     ops
 }
 
-fn run_reg_sequence(cx: &mut Cx, w: &World, fleet: &str, ctx: bool, rand_seed: u64, ops: &[ROp], origin: Value) {
+/// Runs one literal sequence; returns the length of the violating prefix if a violation was reported.
+fn run_reg_sequence(
+    cx: &mut Cx,
+    w: &World,
+    fleet: &str,
+    ctx: bool,
+    rand_seed: u64,
+    ops: &[ROp],
+    origin: Value,
+    quiet: usize,
+) -> Option<usize> {
     cx.stats.evals += 1;
     let fw = w.fleet(fleet);
     if ctx {
-        if let Some(mut r) = CtxRunner::new(cx, fw, &w.small, rand_seed, origin) {
-            for op in ops {
-                if !r.step(cx, op.clone()) {
-                    break;
-                }
-            }
-        }
-    } else if let Some(mut r) = RegRunner::new(cx, fw, rand_seed, origin) {
+        let Some(mut r) = CtxRunner::new(cx, fw, &w.small, rand_seed, origin, quiet) else { return Some(0) };
         for op in ops {
             if !r.step(cx, op.clone()) {
-                break;
+                return Some(r.log.len());
+            }
+        }
+    } else {
+        let Some(mut r) = RegRunner::new(cx, fw, rand_seed, origin, quiet) else { return Some(0) };
+        for op in ops {
+            if !r.step(cx, op.clone()) {
+                return Some(r.log.len());
             }
         }
     }
+    None
 }
 
 fn gen_reg_op(rng: &mut Rng, n: usize, ctx: bool) -> ROp {
@@ -2118,7 +2155,7 @@ fn random_reg_history(cx: &mut Cx, w: &World, rng: &mut Rng, case_seed: u64, ctx
     );
     let origin = json!({"phase": "random", "case_seed": case_seed});
     let log = if ctx {
-        let Some(mut r) = CtxRunner::new(cx, fw, &w.small, rand_seed, origin) else { return };
+        let Some(mut r) = CtxRunner::new(cx, fw, &w.small, rand_seed, origin, 0) else { return };
         for _ in 0..len {
             let op = gen_reg_op(rng, fw.n(), true);
             if !r.step(cx, op) {
@@ -2127,7 +2164,7 @@ fn random_reg_history(cx: &mut Cx, w: &World, rng: &mut Rng, case_seed: u64, ctx
         }
         r.log
     } else {
-        let Some(mut r) = RegRunner::new(cx, fw, rand_seed, origin) else { return };
+        let Some(mut r) = RegRunner::new(cx, fw, rand_seed, origin, 0) else { return };
         for _ in 0..len {
             let op = gen_reg_op(rng, fw.n(), false);
             if !r.step(cx, op) {
@@ -2144,6 +2181,10 @@ fn random_reg_history(cx: &mut Cx, w: &World, rng: &mut Rng, case_seed: u64, ctx
 
 // ---------------------------------------------------------------------------------------------
 // drivers
+
+fn common_prefix<T: PartialEq>(a: &[T], b: &[T]) -> usize {
+    a.iter().zip(b.iter()).take_while(|(x, y)| x == y).count()
+}
 
 enum Task {
     Tour { kind: Kind, closed: bool, prefix: Vec<TOp> },
@@ -2199,9 +2240,23 @@ fn exhaustive(run: &Run, shared: &Shared) {
                 let mut seq = prefix.clone();
                 let mut count = 0u64;
                 let origin = json!({"phase": "exhaustive", "len": len});
+                // a sequence shares a prefix with its predecessor in the enumeration: that prefix was compared step by
+                // step there, so only the new suffix is compared again (every distinct prefix is compared exactly once)
+                // Sequences which extend a prefix that already violated are not run (they would blame later ops).
+                let mut prev: Vec<TOp> = vec![];
+                let mut bad: Option<Vec<TOp>> = None;
                 dfs_tour(al, &model, &mut seq, len - split, &mut |ops: &[TOp]| {
-                    run_tour_sequence(&mut cx, w, al, *kind, *closed, ops, origin.clone());
                     count += 1;
+                    if bad.as_ref().is_some_and(|b| ops.starts_with(b)) {
+                        cx.obs("exhaustive_skipped", "tour sequence extends a violating prefix");
+                        return !shared.too_many_violations();
+                    }
+                    let quiet = if prev.is_empty() { 0 } else { common_prefix(&prev, ops) + 1 };
+                    if let Some(k) = run_tour_sequence(&mut cx, w, al, *kind, *closed, ops, origin.clone(), quiet) {
+                        bad = Some(ops[..k].to_vec());
+                    }
+                    prev.clear();
+                    prev.extend_from_slice(ops);
                     !shared.too_many_violations()
                 });
                 tour_seqs.fetch_add(count, Ordering::Relaxed);
@@ -2212,16 +2267,27 @@ fn exhaustive(run: &Run, shared: &Shared) {
                 let total = (ops.len() as u64).pow(rest as u32);
                 let origin = json!({"phase": "exhaustive", "len": len});
                 let mut seq = prefix.clone();
+                let mut prev: Vec<ROp> = vec![];
+                let mut bad: Option<Vec<ROp>> = None;
+                // one seed for the registry's Random per task (it only steers which representative next() picks)
+                let rand_seed = mix(0xC14, i);
                 for code in 0..total {
                     seq.truncate(split);
-                    let mut c = code;
+                    // the last position varies fastest, so consecutive sequences share long prefixes
+                    let mut div = total;
                     for _ in 0..rest {
-                        seq.push(ops[(c % ops.len() as u64) as usize].clone());
-                        c /= ops.len() as u64;
+                        div /= ops.len() as u64;
+                        seq.push(ops[((code / div) % ops.len() as u64) as usize].clone());
                     }
-                    // the seed of the registry's Random derives from the sequence itself (reproducible)
-                    let rand_seed = mix(0xC14, code ^ (seq.len() as u64) << 40);
-                    run_reg_sequence(&mut cx, w, "small4", *ctx, rand_seed, &seq, origin.clone());
+                    if bad.as_ref().is_some_and(|b| seq.starts_with(b)) {
+                        cx.obs("exhaustive_skipped", "registry sequence extends a violating prefix");
+                        continue;
+                    }
+                    let quiet = if prev.is_empty() { 0 } else { common_prefix(&prev, &seq) + 1 };
+                    if let Some(k) = run_reg_sequence(&mut cx, w, "small4", *ctx, rand_seed, &seq, origin.clone(), quiet) {
+                        bad = Some(seq[..k].to_vec());
+                    }
+                    prev.clone_from(&seq);
                     if shared.too_many_violations() {
                         break;
                     }
@@ -2301,14 +2367,14 @@ fn replay(run: &Run, shared: &Shared, path: &std::path::Path) {
                 return false;
             };
             let al = w.alphabet(art["alphabet"].as_str().unwrap_or(""));
-            run_tour_sequence(&mut cx, w, al, kind, closed, &ops, origin);
+            run_tour_sequence(&mut cx, w, al, kind, closed, &ops, origin, 0);
             true
         }
         Some(part @ ("registry" | "regctx")) => {
             let Ok(ops) = serde_json::from_value::<Vec<ROp>>(art["ops"].clone()) else { return false };
             let fleet = art["fleet"].as_str().unwrap_or("small4");
             let rand_seed = art["rand_seed"].as_u64().unwrap_or(0);
-            run_reg_sequence(&mut cx, w, fleet, part == "regctx", rand_seed, &ops, origin);
+            run_reg_sequence(&mut cx, w, fleet, part == "regctx", rand_seed, &ops, origin, 0);
             true
         }
         _ => false,
